@@ -1,5 +1,69 @@
-use serde_json::Value;
+use serde_json::{json, Value};
+#[cfg(feature = "verif")]
+use text_utils::tokenization::{token_groups_to_sparse_coo_matrix, TokenGroup, TokenizationInfo};
 
-pub fn dispatch(op: &str, _req: &Value) -> Result<Value, String> {
-    Err(format!("unknown op {op}"))
+#[cfg(feature = "verif")]
+fn group_json(g: &TokenGroup) -> Value {
+    match g {
+        TokenGroup::Empty(n) => json!({"Empty": n}),
+        TokenGroup::Full(n) => json!({"Full": n}),
+        TokenGroup::Nested(gs) => json!({"Nested": gs.iter().map(group_json).collect::<Vec<_>>()}),
+    }
+}
+
+pub fn dispatch(op: &str, req: &Value) -> Result<Value, String> {
+    match op {
+        #[cfg(feature = "verif")]
+        "sparse_coo" => {
+            let tok = crate::ops11::build(&req["shape"])?;
+            let mut infos = vec![];
+            let mut lengths = vec![];
+            for t in req["texts"].as_array().ok_or("texts")? {
+                let text: String = t.as_array().unwrap().iter().map(|c| char::from_u32(c.as_u64().unwrap() as u32).unwrap()).collect();
+                let tk = tok.tokenize(&text, false).map_err(|e| e.to_string())?;
+                lengths.push(tk.token_ids.len());
+                infos.push(tk.info);
+            }
+            let mut groupings = vec![];
+            for i in &infos {
+                if let TokenizationInfo::TokenGroups(m) = i {
+                    groupings.push(m.values().next().ok_or("no grouping")?);
+                }
+            }
+            let sc = token_groups_to_sparse_coo_matrix(&groupings, &lengths).map_err(|e| e.to_string())?;
+            let (idx, shape, values, size, gl) = text_utils::verif_hooks::sparse_coo_parts(&sc);
+            Ok(json!({"coo": {"indices": idx, "shape": [shape.0, shape.1], "values": values, "size": size, "group_lengths": gl},
+                      "groups": groupings.iter().map(|g| g.0.iter().map(group_json).collect::<Vec<_>>()).collect::<Vec<_>>(),
+                      "lengths": lengths}))
+        }
+        #[cfg(feature = "verif")]
+        "padding_mask" => {
+            let l: Vec<usize> = req["lengths"].as_array().ok_or("lengths")?.iter().map(|x| x.as_u64().unwrap() as usize).collect();
+            let (shape, data) = text_utils::verif_hooks::padding_mask_vec(&l);
+            Ok(json!({"shape": [shape.0, shape.1], "data": data}))
+        }
+        #[cfg(feature = "verif")]
+        "tensorize" => {
+            use text_utils::data::{TrainData, TrainItem, TrainTaskInput};
+            let kind = req["kind"].as_str().ok_or("kind")?;
+            let pad = req["pad"].as_u64().ok_or("pad")? as u32;
+            let tpad = req["tpad"].as_u64().ok_or("tpad")? as u32;
+            let mut batch = vec![];
+            for r in req["rows"].as_array().ok_or("rows")? {
+                let ids: Vec<u32> = r["ids"].as_array().unwrap().iter().map(|x| x.as_u64().unwrap() as u32).collect();
+                let labels: Vec<i32> = r["labels"].as_array().unwrap().iter().map(|x| x.as_i64().unwrap() as i32).collect();
+                let tids: Vec<u32> = r["tids"].as_array().unwrap().iter().map(|x| x.as_u64().unwrap() as u32).collect();
+                let input = match kind {
+                    "Classification" => TrainTaskInput::Classification { token_ids: ids, pad_token_id: pad, label: labels.first().copied().unwrap_or(7) },
+                    "SequenceClassification" => TrainTaskInput::SequenceClassification { token_ids: ids, pad_token_id: pad, labels },
+                    "Generation" => TrainTaskInput::Generation { token_ids: ids, pad_token_id: pad, labels },
+                    _ => TrainTaskInput::ConditionalGeneration { token_ids: ids, pad_token_id: pad, target_token_ids: tids, target_pad_token_id: tpad, labels },
+                };
+                batch.push(TrainItem::new(TrainData::new("x".to_string(), Some("y".to_string())), input));
+            }
+            let (k, tensors) = text_utils::verif_hooks::tensorize_to_vecs(&batch);
+            Ok(json!({"kind": k, "tensors": tensors.iter().map(|(s, d)| json!([s, d])).collect::<Vec<_>>()}))
+        }
+        _ => crate::ops14::dispatch(op, req),
+    }
 }
